@@ -12,24 +12,33 @@ from pbt.core import Result, pf_tol, silence, pf_outcome, exc_sig
 
 ID = "C21"
 LEVEL = "exploration"
-EXAMPLES = {"quick": 640, "thorough": 16000}
-RULE = ("Hypothesis draws a network recipe (1-3 voltage levels, lines incl. parallel/g, 2W trafos with ratio/symmetrical/ideal "
-        "tap changers and 0/30/150/180 degree shifts, nominal-ratio trafos, 3W trafos, symmetric impedances, impedance and "
-        "fusing bus-bus switches, open line/trafo switches, ext_grids / slack gens / PV gens / sgens / loads / shunts / "
-        "storages / motors / wards, out-of-service buses and elements, an island without slack, permuted custom bus labels) "
-        "and conversion options (init flat/results, switch_rx_ratio). The original is solved with "
-        "trafo_model='pi', angles on; then net2 = from_ppc(to_ppc(net)) and net3 = from_mpc(to_mpc(net, file.mat)) are solved "
-        "with the options validate_from_ppc documents (pi, angles). Oracle (round trip): every supplied bus b of the original "
-        "has the counterpart net._pd2ppc_lookups['bus'][b] (never the label) with equal vm_pu / va_degree; per reference node "
-        "the summed P and Q of the voltage-controlling machines are equal; total branch losses (P and Q, = -sum res_bus) are "
-        "equal. Non-trivial = all three power flows converged, >= 2 supplied buses compared, and the network has an "
-        "off-nominal / phase-shifting transformer or an open switch or the ppc numbering differs from the bus labels; "
-        "distinct by case hash.")
+DEADLINE_S = {"quick": 600, "thorough": 3000}   # the shared machine can be 5x slower than nominal
+EXAMPLES = {"quick": 480, "thorough": 14000}
+RULE = ("Hypothesis draws a network recipe (1-3 voltage levels, lines incl. parallel (1/6 of the cases: with g_us_per_km), 2W "
+        "trafos with ratio/symmetrical/ideal tap changers on hv or lv side, iron losses, 0/30/150/180 degree shifts, "
+        "nominal-ratio trafos, 3W trafos, symmetric impedances, impedance and fusing bus-bus switches, open line/trafo switches, "
+        "ext_grids / slack gens / PV gens / sgens / loads incl. purely reactive ones / shunts / storages / motors / wards, "
+        "out-of-service buses and elements, an island without slack, permuted custom bus labels) and conversion options (init "
+        "flat/results, switch_rx_ratio). The original is solved with trafo_model='pi', angles on; net2 = from_ppc(to_ppc(net)) "
+        "and net3 = from_mpc(to_mpc(net, file.mat)) are solved with the options validate_from_ppc documents (pi, angles). "
+        "Oracle (round trip): every supplied bus b of the original has the counterpart net._pd2ppc_lookups['bus'][b] (never "
+        "the label) with equal vm_pu / va_degree; per reference node the summed P and Q of the voltage-controlling machines "
+        "(converted ones found through net._from_ppc_lookups['gen']) are equal; total losses (P and Q, = -sum res_bus; and the "
+        "sum of pl_mw over the branch result tables) are equal. A difference is attributed to the branch conductances (line g, "
+        "impedance g, iron losses) if the case passes without them; the signature then names the ppc branch class that carried "
+        "them. Non-trivial = original and both converted nets converged, >= 2 supplied buses compared in both paths, and the "
+        "network has an off-nominal / phase-shifting transformer or an open switch or a ppc numbering that differs from the bus "
+        "labels; distinct by case hash.")
 ASSUMPTIONS = ["scope as stated by the property: trafo_model='pi' on both sides, symmetric impedances only (rtf=rft, xtf=xft, gt=gf, bt=bf)",
                "loads are constant power on both sides (to_ppc documents that ZIP shares are not converted: voltage_depend_loads=False)",
+               "check_connectivity=True on both sides (without it isolated buses make the original power flow itself meaningless)",
                "no xward / dcline (their auxiliary PV machines are no slack powers and their internal losses are not branch losses)",
                "tolerances: vm 1e-8 p.u., va 1e-6 degree, powers 1e-5 MVA*max(1,sn/100) + 1e-7 relative; solver tolerance scaled with sn_mva",
-               "per-machine Q at one node is not unique: slack/PV powers are compared as sums per electrical reference node"]
+               "per-machine Q at one node is not unique: slack/PV powers are compared as sums per electrical reference node",
+               "a difference only counts if it persists when the converted net is started from the original operating point "
+               "(a flat start may reach another solution of the same equations, e.g. ~0 p.u. at the auxiliary bus of an open transformer switch)",
+               "the MATPOWER file path runs in 70 % of the cases on the variant of the network without branch conductances "
+               "(the case format has no such column; from_mpc ignoring to_mpc's extra field is reported as a finding)"]
 
 _KW = dict(
     bus_kinds={"load": 5, "sgen": 3, "gen": 3, "storage": 1, "shunt": 2, "ward": 1, "xward": 0, "motor": 1,
@@ -60,6 +69,10 @@ def _case(draw, tier):
     if draw(st.integers(0, 3)) != 0:
         for b in recipe["buses"]:
             b.pop("in_service", None)
+    # a purely reactive load (PD == 0, QD != 0 is a separate branch of from_ppc's bus conversion)
+    loads = [e for e in recipe["el"] if e["t"] == "load" and e.get("q_mvar", 0.0) != 0.0]
+    if loads and draw(st.integers(0, 3)) == 0:
+        loads[draw(st.integers(0, len(loads) - 1))]["p_mw"] = 0.0
     # make nominal-ratio transformers (ppc TAP == 1, SHIFT == 0: the converter's third branch class) frequent enough
     if draw(st.integers(0, 3)) == 0:
         for e in recipe["el"]:
@@ -274,7 +287,7 @@ def evaluate(recipe, opt, path, solved=None):
         single = [k for k in ("bus", "branch") if shapes.get(k) == 1]
         if path == "mpc" and single and isinstance(e, IndexError):
             # scipy.io.loadmat(squeeze_me=True) returns a one-row matrix as a vector
-            out.fails.append(("crash/single-row-%s/%s" % ("+".join(single), exc_sig(e)), dict(error=repr(e)[:300], rows=shapes)))
+            out.fails.append(("crash/single-row-matrix/%s" % exc_sig(e), dict(error=repr(e)[:300], rows=shapes, single=single)))
         else:
             out.fails.append(("crash/%s" % exc_sig(e), dict(error=repr(e)[:300], rows=shapes, features=cls)))
         return out
@@ -386,12 +399,21 @@ def classify(recipe, opt, path, out):
     plain = [("%s/%s" % (path, k), d) for k, d in out.fails]
     if out.net is None or any(k.startswith("crash") for k, _ in out.fails):
         return plain
+    if out.status == "ok":
+        # value differences without an attributed cause: one signature per path and transformer/branch feature class
+        kinds = sorted({k.split("/")[0] for k, _ in out.fails})
+        cls = out.fails[0][0].split("/", 1)[1] if "/" in out.fails[0][0] else "plain"
+        plain = [("%s/results-differ/unattributed/%s" % (path, cls), dict(observed=kinds, first=out.fails[0][1]))]
     for name, has, strip in SUSPECTS:
         if has(recipe):
             o = evaluate(strip(recipe), opt, path)
             if o.status == "ok" and not o.fails:
                 kinds = sorted({k.split("/")[0] for k, _ in out.fails})
-                extra = "@" + "+".join(out.gclasses) if name == "branch-g" else ""
+                # ppc path: the branch class decides which conversion formula handled the conductance;
+                # file path: the conductances do not reach from_ppc at all, whatever the class
+                extra = ""
+                if name == "branch-g" and path == "ppc":
+                    extra = "@line" if "line" in out.gclasses else "@" + "+".join(out.gclasses)
                 return [("%s/results-differ/%s%s" % (path, name, extra), dict(observed=kinds, first=out.fails[0][1]))]
     return plain
 
@@ -430,6 +452,9 @@ def check(case):
             res.label("branch-g")
         if _has_pfe(recipe):
             res.label("trafo-pfe")
+        if any(e["t"] == "load" and e.get("p_mw") == 0.0 and e.get("q_mvar", 0.0) != 0.0 and e.get("in_service", True)
+               and e.get("scaling", 1.0) != 0.0 for e in recipe["el"]):
+            res.label("q-only-load")
         if a.other_solution:
             res.label("flat-start-reaches-other-solution")
         nt = a.status == "ok" and a.n_cmp >= 2 and (bool(a.feats & {"off-nominal", "shift", "phase-tap"}) or n_sw_open > 0 or renumbered)
